@@ -236,6 +236,9 @@ class LogPublisher(Referenceable):
             fn = abs_fn + ".bz2"
             if not os.path.exists(fn):
                 fn = abs_fn
+            if os.path.islink(fn):
+                # only files that really are in the log directory
+                raise KeyError("no incident named %s" % name)
             events = flogfile.get_events(fn)
             # note the generator isn't actually cycled yet, not until next()
             header = next(events)["header"]
